@@ -161,10 +161,11 @@ func (s *sim) violation(class, detail string, nd *node, in msg) {
 		}
 	}
 	from := 0
-	if len(s.trace) > 80 {
-		from = len(s.trace) - 80
+	if s.ntrace > len(s.trace) {
+		from = s.ntrace - len(s.trace)
 	}
-	for _, e := range s.trace[from:] {
+	for k := from; k < s.ntrace; k++ {
+		e := s.trace[k%len(s.trace)]
 		w.Trace = append(w.Trace, fmt.Sprintf("-> v%d %s", e.to, e.m))
 	}
 	brief := class + ": " + detail
@@ -294,51 +295,52 @@ func (s *sim) monOwnPrevote(nd *node, in msg, m msg) {
 	rl = l.rl(m.r)
 	// justification of a non-nil prevote ----------------------------------------
 	if m.val != 0 {
-		ok := false
+		// Any delivered proposal of this round with this id may justify the
+		// prevote; if none does, the report is classified by the first one
+		// delivered (the one a validator that keeps one proposal per round holds).
+		ok, first := false, true
 		class, why := "unjustified-prevote:no-proposal-with-this-id-from-the-round-proposer",
 			fmt.Sprintf("prevoted %s in r%d; no proposal with that id from proposer v%d was delivered", valStr(m.val), m.r, s.c.proposer(m.h, m.r))
 		for _, p := range props {
 			if p.val != m.val {
 				continue
 			}
-			if !validVal(p.val) {
-				class, why = "validity:prevote-for-invalid-value", fmt.Sprintf("prevoted %s which the application rejects", valStr(m.val))
-				continue
-			}
+			cl, wh := "", ""
 			lockOK := l.lockedRound == -1 || l.lockedVal == m.val
 			switch {
+			case !validVal(p.val):
+				cl, wh = "validity:prevote-for-invalid-value", fmt.Sprintf("prevoted %s which the application rejects", valStr(m.val))
 			case p.vr == -1:
 				if lockOK {
 					ok = true
 				} else {
-					class = "lock-rule:prevote-for-fresh-proposal(vr=-1)-conflicting-with-lock"
-					why = fmt.Sprintf("locked on %s in round %d, prevoted %s proposed with valid round -1 in r%d", valStr(l.lockedVal), l.lockedRound, valStr(m.val), m.r)
+					cl = "lock-rule:prevote-for-fresh-proposal(vr=-1)-conflicting-with-lock"
+					wh = fmt.Sprintf("locked on %s in round %d, prevoted %s proposed with valid round -1 in r%d", valStr(l.lockedVal), l.lockedRound, valStr(m.val), m.r)
 				}
 			case p.vr >= 0 && p.vr < m.r:
 				pw := s.c.maskPower(nd.h, voteMask(l.rl(p.vr).pv, p.val))
 				switch {
 				case !s.c.isQuorum(nd.h, pw):
-					if class[:4] != "lock" {
-						class = "threshold:prevote-on-valid-round-without-quorum-of-prevotes"
-						why = fmt.Sprintf("prevoted %s (vr=%d) in r%d holding prevotes(r%d,%s) of power %d, quorum %d", valStr(m.val), p.vr, m.r, p.vr, valStr(m.val), pw, s.c.quorum(nd.h))
-					}
+					cl = "threshold:prevote-on-valid-round-without-quorum-of-prevotes"
+					wh = fmt.Sprintf("prevoted %s (vr=%d) in r%d holding prevotes(r%d,%s) of power %d, quorum %d", valStr(m.val), p.vr, m.r, p.vr, valStr(m.val), pw, s.c.quorum(nd.h))
 				case lockOK || l.lockedRound <= p.vr:
 					ok = true
 					if !lockOK {
 						s.st.unlocks++
 					}
 				default:
-					class = "lock-rule:prevote-on-polka-older-than-lock(vr<lockedRound)"
-					why = fmt.Sprintf("locked on %s in round %d, prevoted %s in r%d on a proposal whose valid round %d is older than the lock", valStr(l.lockedVal), l.lockedRound, valStr(m.val), m.r, p.vr)
+					cl = "lock-rule:prevote-on-polka-older-than-lock(vr<lockedRound)"
+					wh = fmt.Sprintf("locked on %s in round %d, prevoted %s in r%d on a proposal whose valid round %d is older than the lock", valStr(l.lockedVal), l.lockedRound, valStr(m.val), m.r, p.vr)
 				}
 			default:
-				if class[:4] != "lock" {
-					class = "unjustified-prevote:valid-round-out-of-range"
-					why = fmt.Sprintf("prevoted %s in r%d on a proposal with valid round %d", valStr(m.val), m.r, p.vr)
-				}
+				cl = "unjustified-prevote:valid-round-out-of-range"
+				wh = fmt.Sprintf("prevoted %s in r%d on a proposal with valid round %d", valStr(m.val), m.r, p.vr)
 			}
 			if ok {
 				break
+			}
+			if first {
+				class, why, first = cl, wh, false
 			}
 		}
 		if !ok {
